@@ -8,7 +8,7 @@ namespace Babylon.Exec
 open Babylon.Core
 
 /-- closing tactic for the place goals -/
-macro "p_close" : tactic => `(tactic| (
+macro "p_close_E" : tactic => `(tactic| (
   (try simp only [exec_proj, upd_same, Q.claim_fold, Q.bump_fold] at *)
   first
     | done
@@ -53,22 +53,21 @@ theorem Inv3.step_f1 (I : Inv1 c s) (J : Inv2 c s) (K : Inv3 c s) (X : Inv3X s) 
     have hc3 : i0 < (s.l k0).cells.length := Q.stAt_some_lt _ _ _ hc2
     rw [hidx] at hc1; rw [hfull] at hc2
     clear hcell l4
-    cases ctx <;> simp only [hidx] at * <;> p_close
+    cases ctx <;> simp only [hidx] at * <;> p_close_E
   case wRecv i0 cl hpc hcell hfull =>
     have hc1 := Q.itemAt_eq _ _ _ hcell
     have hc2 := Q.stAt_eq _ _ _ hcell
     have hc3 : i0 < s.g.cells.length := Q.stAt_some_lt _ _ _ hc2
     rw [hfull] at hc2
     clear hcell l4
-    cases hx : cl.item <;> simp only [hx] at * <;> p_close
+    cases hx : cl.item <;> simp only [hx] at * <;> p_close_E
   case gPublish p k hpc hfree hst =>
     have hc3 : p < s.g.cells.length := Q.stAt_some_lt _ _ _ hst
-    clear l4; p_close
+    clear l4; p_close_E
   case rLPub id0 cid p k0 hpc hown hfree hst =>
     have hc3 : p < (s.l k0).cells.length := Q.stAt_some_lt _ _ _ hst
-    clear l4; p_close
-  all_goals (clear l4; try p_close)
-  all_goals (trace_state; sorry)
+    clear l4; p_close_E
+  all_goals (clear l4; try p_close_E)
 
 set_option maxHeartbeats 4000000 in
 theorem Inv3.step_f3 (I : Inv1 c s) (J : Inv2 c s) (K : Inv3 c s) (X : Inv3X s) (h : StepCase c s t lb s') :
@@ -102,22 +101,21 @@ theorem Inv3.step_f3 (I : Inv1 c s) (J : Inv2 c s) (K : Inv3 c s) (X : Inv3X s) 
     have hc3 : i0 < (s.l k0).cells.length := Q.stAt_some_lt _ _ _ hc2
     rw [hidx] at hc1; rw [hfull] at hc2
     clear hcell l4
-    cases ctx <;> simp only [hidx] at * <;> p_close
+    cases ctx <;> simp only [hidx] at * <;> p_close_E
   case wRecv i0 cl hpc hcell hfull =>
     have hc1 := Q.itemAt_eq _ _ _ hcell
     have hc2 := Q.stAt_eq _ _ _ hcell
     have hc3 : i0 < s.g.cells.length := Q.stAt_some_lt _ _ _ hc2
     rw [hfull] at hc2
     clear hcell l4
-    cases hx : cl.item <;> simp only [hx] at * <;> p_close
+    cases hx : cl.item <;> simp only [hx] at * <;> p_close_E
   case gPublish p k hpc hfree hst =>
     have hc3 : p < s.g.cells.length := Q.stAt_some_lt _ _ _ hst
-    clear l4; p_close
+    clear l4; p_close_E
   case rLPub id0 cid p k0 hpc hown hfree hst =>
     have hc3 : p < (s.l k0).cells.length := Q.stAt_some_lt _ _ _ hst
-    clear l4; p_close
-  all_goals (clear l4; try p_close)
-  all_goals (trace_state; sorry)
+    clear l4; p_close_E
+  all_goals (clear l4; try p_close_E)
 
 set_option maxHeartbeats 4000000 in
 theorem Inv3.step_f4 (I : Inv1 c s) (J : Inv2 c s) (K : Inv3 c s) (X : Inv3X s) (h : StepCase c s t lb s') :
@@ -151,22 +149,21 @@ theorem Inv3.step_f4 (I : Inv1 c s) (J : Inv2 c s) (K : Inv3 c s) (X : Inv3X s) 
     have hc3 : i0 < (s.l k0).cells.length := Q.stAt_some_lt _ _ _ hc2
     rw [hidx] at hc1; rw [hfull] at hc2
     clear hcell l4
-    cases ctx <;> simp only [hidx] at * <;> p_close
+    cases ctx <;> simp only [hidx] at * <;> p_close_E
   case wRecv i0 cl hpc hcell hfull =>
     have hc1 := Q.itemAt_eq _ _ _ hcell
     have hc2 := Q.stAt_eq _ _ _ hcell
     have hc3 : i0 < s.g.cells.length := Q.stAt_some_lt _ _ _ hc2
     rw [hfull] at hc2
     clear hcell l4
-    cases hx : cl.item <;> simp only [hx] at * <;> p_close
+    cases hx : cl.item <;> simp only [hx] at * <;> p_close_E
   case gPublish p k hpc hfree hst =>
     have hc3 : p < s.g.cells.length := Q.stAt_some_lt _ _ _ hst
-    clear l4; p_close
+    clear l4; p_close_E
   case rLPub id0 cid p k0 hpc hown hfree hst =>
     have hc3 : p < (s.l k0).cells.length := Q.stAt_some_lt _ _ _ hst
-    clear l4; p_close
-  all_goals (clear l4; try p_close)
-  all_goals (trace_state; sorry)
+    clear l4; p_close_E
+  all_goals (clear l4; try p_close_E)
 
 set_option maxHeartbeats 4000000 in
 theorem Inv3.step_f5 (I : Inv1 c s) (J : Inv2 c s) (K : Inv3 c s) (X : Inv3X s) (h : StepCase c s t lb s') :
@@ -200,22 +197,21 @@ theorem Inv3.step_f5 (I : Inv1 c s) (J : Inv2 c s) (K : Inv3 c s) (X : Inv3X s) 
     have hc3 : i0 < (s.l k0).cells.length := Q.stAt_some_lt _ _ _ hc2
     rw [hidx] at hc1; rw [hfull] at hc2
     clear hcell l4
-    cases ctx <;> simp only [hidx] at * <;> p_close
+    cases ctx <;> simp only [hidx] at * <;> p_close_E
   case wRecv i0 cl hpc hcell hfull =>
     have hc1 := Q.itemAt_eq _ _ _ hcell
     have hc2 := Q.stAt_eq _ _ _ hcell
     have hc3 : i0 < s.g.cells.length := Q.stAt_some_lt _ _ _ hc2
     rw [hfull] at hc2
     clear hcell l4
-    cases hx : cl.item <;> simp only [hx] at * <;> p_close
+    cases hx : cl.item <;> simp only [hx] at * <;> p_close_E
   case gPublish p k hpc hfree hst =>
     have hc3 : p < s.g.cells.length := Q.stAt_some_lt _ _ _ hst
-    clear l4; p_close
+    clear l4; p_close_E
   case rLPub id0 cid p k0 hpc hown hfree hst =>
     have hc3 : p < (s.l k0).cells.length := Q.stAt_some_lt _ _ _ hst
-    clear l4; p_close
-  all_goals (clear l4; try p_close)
-  all_goals (trace_state; sorry)
+    clear l4; p_close_E
+  all_goals (clear l4; try p_close_E)
 
 set_option maxHeartbeats 4000000 in
 theorem Inv3.step_f6 (I : Inv1 c s) (J : Inv2 c s) (K : Inv3 c s) (X : Inv3X s) (h : StepCase c s t lb s') :
@@ -252,22 +248,21 @@ theorem Inv3.step_f6 (I : Inv1 c s) (J : Inv2 c s) (K : Inv3 c s) (X : Inv3X s) 
     have hc3 : i0 < (s.l k0).cells.length := Q.stAt_some_lt _ _ _ hc2
     rw [hidx] at hc1; rw [hfull] at hc2
     clear hcell l4
-    cases ctx <;> simp only [hidx] at * <;> p_close
+    cases ctx <;> simp only [hidx] at * <;> p_close_E
   case wRecv i0 cl hpc hcell hfull =>
     have hc1 := Q.itemAt_eq _ _ _ hcell
     have hc2 := Q.stAt_eq _ _ _ hcell
     have hc3 : i0 < s.g.cells.length := Q.stAt_some_lt _ _ _ hc2
     rw [hfull] at hc2
     clear hcell l4
-    cases hx : cl.item <;> simp only [hx] at * <;> p_close
+    cases hx : cl.item <;> simp only [hx] at * <;> p_close_E
   case gPublish p k hpc hfree hst =>
     have hc3 : p < s.g.cells.length := Q.stAt_some_lt _ _ _ hst
-    clear l4; p_close
+    clear l4; p_close_E
   case rLPub id0 cid p k0 hpc hown hfree hst =>
     have hc3 : p < (s.l k0).cells.length := Q.stAt_some_lt _ _ _ hst
-    clear l4; p_close
-  all_goals (clear l4; try p_close)
-  all_goals (trace_state; sorry)
+    clear l4; p_close_E
+  all_goals (clear l4; try p_close_E)
 
 end
 end Babylon.Exec
